@@ -24,8 +24,8 @@ def _budget(lv: dict) -> float:
 # thorough tier: the quick levels stay required; every deeper level is exploratory ("completed or not claimed"):
 # it has its own budget, and once the whole check has used THOROUGH_CAP_S the remaining deep levels are not started
 # (they are listed as not completed, not claimed).  A level that does not complete is never counted as held.
-THOROUGH_CAP_S = float(os.environ.get('VERIF_THOROUGH_CAP_S', '2400'))
-DEEP_LEVEL_BUDGET_S = float(os.environ.get('VERIF_DEEP_LEVEL_S', '600'))
+THOROUGH_CAP_S = float(os.environ.get('VERIF_THOROUGH_CAP_S', '1200'))
+DEEP_LEVEL_BUDGET_S = float(os.environ.get('VERIF_DEEP_LEVEL_S', '400'))
 T_START = time.time()
 
 
